@@ -1,4 +1,5 @@
 import Gtree.Lemmas.SourceConfig
+import Gtree.Lemmas.HeapDry
 import Gtree.Lemmas.SourceRefines
 import Gtree.Lemmas.Validate
 import Gtree.Lemmas.MkdirCounts
@@ -143,4 +144,28 @@ theorem C09_dry_run_option_in_the_source (os : List Opt) :
 theorem C09_options_apply_in_order_in_the_source (os : List Opt) :
     Src.newConfig (os.map Opt.fn) = os.foldl Opt.apply defaultConfig :=
   newConfig_src os
+end Gtree
+
+namespace Gtree
+/-- Tie to the source, pointer code included (heap mode of /verif/translate, regenerated on every run): THE DRY-RUN PRINTER
+    of simple_tree_spreader.go — `colorizeSpreaderSimple.spreadBranch` (the recursion), `colorize` (the file decision and
+    the two counters) and `summary` — translated over an explicit heap, the counters as fields of the receiver, colour
+    switched off.  For every heap that holds a root whose nodes read as the model's `growRoot` (what the translated grower
+    leaves: `C01_grower_is_the_source`), every extension list and counters reset to zero as `spread` resets them: the
+    printer returns one line per node in pre-order, counts as files exactly the childless nodes whose name ends with an
+    extension and as directories all others (`countFiles`, `countDirs` — the numbers `C09_counts_are_created` relates to
+    what a real Mkdir creates), and `"%s\n%s\n"` of its text and its summary is the model's `dryRunReport`. -/
+theorem C09_dry_run_printer_is_the_source (cs : SrcH.colorizeSpreaderSimple) (h : SrcH.Heap) (t : T) (r : Go.Ptr)
+    (f : Fmt) (fuel : Nat) (hr : SrcH.Repr h t r 0 1) (hf : t.size ≤ fuel)
+    (hread : SrcH.readNode h t r 1 = growRoot f t) (h0 : cs.fileCounter = 0) (h0' : cs.dirCounter = 0) :
+    ∃ cs' text, SrcH.colorizeSpreaderSimple.spreadBranch fuel h cs r = some (cs', text) ∧
+      cs'.fileCounter = (countFiles cs.fileConsiderer.extensions (growRoot f t) : Nat) ∧
+      cs'.dirCounter = (countDirs cs.fileConsiderer.extensions (growRoot f t) : Nat) ∧
+      text ++ [0x0A] ++ SrcH.colorizeSpreaderSimple.summary h cs' ++ [0x0A] = dryRunReport f cs.fileConsiderer.extensions t := by
+  have hrun := SrcH.dry_node h t cs r 0 1 fuel hr hf
+  rw [hread] at hrun
+  refine ⟨_, _, hrun, by simp [SrcH.bump, h0], by simp [SrcH.bump, h0'], ?_⟩
+  rw [SrcH.summary_eq h _ (countDirs cs.fileConsiderer.extensions (growRoot f t))
+    (countFiles cs.fileConsiderer.extensions (growRoot f t)) (by simp [SrcH.bump, h0']) (by simp [SrcH.bump, h0])]
+  simp [dryRunReport, lf]
 end Gtree
